@@ -303,7 +303,7 @@ def spec (caseLine implLine : String) : String :=
       let sz := bs.filterMap String.toNat?
       let limit : Option Nat := match c.cfg.backend with
         | .influxdb | .otlp => some c.cfg.batch
-        | .cloudwatch => some cwLimit
+        | .cloudwatch => some 20   -- the property's hard limit, not the code's constant
         | _ => none
       match limit, sz.find? (fun n => match limit with | some l => n > l | none => false) with
       | some l, some n => s!"FAIL limit payload of {n} > {l}"
